@@ -636,3 +636,90 @@ def rule_A8(ctx, rid='A8'):
                           lambda e, a=a: isinstance(e, ast.Attribute) and e.attr == a)
             ctx.ob(rid, 'Sampler.log_z:depends-on(%s)' % a, ok, f.where(r.ast),
                    'the evidence depends on %s' % a)
+
+
+# ---------------------------------------------------------------------------
+# A9 the marker written for an empty shell is the one the estimators test for
+# ---------------------------------------------------------------------------
+
+def _marker(e):
+    """'nan' / '-inf' / 'inf' / 'zero' for np.nan, -np.inf, np.inf, 0; else None."""
+    if isinstance(e, ast.Attribute) and dotted(e) in ('np.nan', 'np.NaN', 'math.nan'):
+        return 'nan'
+    if isinstance(e, ast.Attribute) and dotted(e) in ('np.inf', 'math.inf'):
+        return 'inf'
+    if isinstance(e, ast.UnaryOp) and isinstance(e.op, ast.USub) and \
+            isinstance(e.operand, ast.Attribute) and dotted(e.operand) in ('np.inf', 'math.inf'):
+        return '-inf'
+    if isinstance(e, ast.Call) and dotted(e.func) == 'float' and e.args and \
+            isinstance(e.args[0], ast.Constant) and isinstance(e.args[0].value, str):
+        return {'nan': 'nan', '-inf': '-inf', 'inf': 'inf'}.get(e.args[0].value.lower())
+    return None
+
+
+def rule_A9(ctx, rid='A9'):
+    ctx.rule(rid, 'empty-shell marker agreement: where estimators recognise a shell without '
+             'samples by a test on a per-shell statistic (np.isnan(x), x == 0 / x > 0, '
+             'x == -inf), every degenerate constant the sampler writes into that statistic '
+             '(nan, +-inf, 0) is one those tests recognise')
+    prog = ctx.program
+    S = prog.cls('Sampler')
+    n = 0
+
+    def self_attr(a, f):
+        while isinstance(a, ast.Subscript):
+            a = a.value
+        if isinstance(a, ast.Attribute) and isinstance(a.value, ast.Name) and \
+                a.value.id == f.self_name:
+            return a.attr
+        return None
+    tested = {}
+    for f in S.methods.values():
+        for x in walk_no_nested(f.node):
+            if isinstance(x, ast.Call) and dotted(x.func) in ('np.isnan', 'math.isnan') and \
+                    x.args and self_attr(x.args[0], f):
+                tested.setdefault(self_attr(x.args[0], f), {}).setdefault('nan', []).append(
+                    f.qualname)
+            if isinstance(x, ast.Call) and dotted(x.func) in ('np.isneginf',) and x.args and \
+                    self_attr(x.args[0], f):
+                tested.setdefault(self_attr(x.args[0], f), {}).setdefault('-inf', []).append(
+                    f.qualname)
+            if isinstance(x, ast.Compare) and len(x.ops) == 1 and self_attr(x.left, f) and \
+                    self_attr(x.left, f).startswith('shell_'):
+                c = x.comparators[0]
+                if isinstance(c, ast.Constant) and c.value == 0 and \
+                        not isinstance(c.value, bool) and \
+                        isinstance(x.ops[0], (ast.Eq, ast.NotEq, ast.Gt, ast.LtE)):
+                    tested.setdefault(self_attr(x.left, f), {}).setdefault('zero', []).append(
+                        f.qualname)
+                if _marker(c) == '-inf':
+                    tested.setdefault(self_attr(x.left, f), {}).setdefault('-inf', []).append(
+                        f.qualname)
+    for attr, kinds in sorted(tested.items()):
+        users = sorted({u for us in kinds.values() for u in us})
+        for f in S.methods.values():
+            for st in walk_no_nested(f.node):
+                if not isinstance(st, ast.Assign) or len(st.targets) != 1:
+                    continue
+                if self_attr(st.targets[0], f) != attr:
+                    continue
+                v = st.value
+                if isinstance(v, ast.Call) and dotted(v.func) == 'np.append' and \
+                        len(v.args) >= 2:
+                    v = v.args[1]
+                m = _marker(v)
+                if m is None and isinstance(v, ast.Constant) and v.value == 0 and \
+                        not isinstance(v.value, bool):
+                    m = 'zero'
+                if m is None:
+                    continue
+                ok = m in kinds
+                n += 1
+                ctx.ob(rid, '%s:marker(%s)' % (f.qualname, attr), ok, f.where(st),
+                       'a shell without samples gets %s = %s, which %s test for' % (
+                           attr, m, ', '.join(users)) if ok else
+                       '`%s` marks a shell without samples with %s, but %s recognise such shells '
+                       'only by %s on %s: the shell is not skipped and its degenerate terms '
+                       'poison the estimate' % (unparse(st)[:50], m, ', '.join(users),
+                                                ' / '.join(sorted(kinds)), attr))
+    return n
